@@ -22,8 +22,8 @@ BOUNDS = {'quick': '10 entry points x 6 options; histories depth 3; 1 thread pai
           'thorough': 'histories depth 4; 3 line-granularity pairs, 6 call-granularity pairs, 2 preemptions at call granularity for 2 pairs (first preemption at points 0..119 of the start thread, second at points 0..119 of the other thread: option parsing, argument conversion and the first iterations of both solves)'}
 TECHNIQUE = 'preemption-bounded exhaustive schedule exploration (CHESS style) + explicit-state BFS over option/call histories + exhaustive options matrix'
 
-LINE_CAP = 4000
-CALL_CAP = 1500
+LINE_CAP = 6000
+CALL_CAP = 3000
 SCHED2_K = 120         # two-preemption schedules: first preemption at points < SCHED2_K, second at points < SCHED2_J
 SCHED2_J = 120
 ENTRIES = ['conelp', 'lp', 'socp', 'sdp', 'coneqp', 'qp', 'cpl', 'cp', 'gp', 'opsolve']
@@ -131,12 +131,15 @@ def cases(tier, seed, flavour):
         yield {'part': 'tolerances', 'dims': d, 'seed': seed}
     for e in ENTRIES:
         yield {'part': 'hist', 'entry': e, 'depth': 3 if tier == 'quick' else 4, 'seed': seed}
+    for tag, cone in (('ball2.0', None), ('ballo2.0', None), ('ballo1.1', None), ('quad2.0', {'l': 1, 'q': [2], 's': [2]}),
+                      ('acent2.0.015625', {'l': 1, 'q': [2], 's': [2]}), ('logdom.0.1', None), ('expc2', None), ('lse.0.cp', None)):
+        yield {'part': 'startpoint', 'tag': tag, 'cone': cone, 'seed': seed}
     # line granularity (every line of cvxopt/*.py is a scheduling point) for the pair of equal-dimension LP solves;
     # call granularity (every call of a cvxopt python function) for the mixed pairs
     line_pairs = [('lp', 'lp')] if tier == 'quick' else [('lp', 'lp'), ('conelp', 'conelp'), ('coneqp', 'qp')]
     call_pairs = [('coneqp', 'cpl')] if tier == 'quick' else \
         [('conelp', 'conelp'), ('coneqp', 'cpl'), ('socp', 'cp'), ('lp', 'opsolve'), ('sdp', 'qp'), ('gp', 'cp')]
-    line_cap = LINE_CAP if tier == 'quick' else 9000
+    line_cap = LINE_CAP if tier == 'quick' else 20000
     for pr, gran in [(p, 'line') for p in line_pairs] + [(p, 'call') for p in call_pairs]:
         yield {'part': 'sched-count', 'pair': list(pr), 'gran': gran, 'seed': seed, 'cap': line_cap if gran == 'line' else CALL_CAP}
     # the one-preemption schedules are sharded in chunks; the number of points is checked by the 'sched-count' case
@@ -218,12 +221,20 @@ def run_options(case):
             viol.append({'key': 'C09:options:empty-per-call-dictionary-ignored@%s' % e,
                          'msg': "%s(options={}) with solvers.options = {'maxiters': 1, 'feastol': 0.1} gives %s, not the result of the "
                                 "defaults" % (e, _brief(r_empty))})
-        fresh_globals()
-        r = _do(call, dict(base_opts, abstol=-1.0, reltol=-1.0))
-        n += 1
-        if not isinstance(r, ValueError):
-            viol.append({'key': 'C09:options:invalid-value-accepted:abstol+reltol@%s' % e,
-                         'msg': '%s with abstol <= 0 and reltol <= 0 should raise ValueError, got %s' % (e, _brief(r))})
+        # no positive gap tolerance at all (every sign combination on the boundary), per call and globally
+        for (at, rt) in ((-1.0, -1.0), (0.0, 0.0), (0.0, -1.0), (-1.0, 0.0)):
+            for how in ('per-call', 'global'):
+                if how == 'per-call':
+                    fresh_globals()
+                    r = _do(call, dict(base_opts, abstol=at, reltol=rt))
+                else:
+                    fresh_globals(abstol=at, reltol=rt)
+                    r = _do(call, None)
+                n += 1
+                if not isinstance(r, ValueError):
+                    viol.append({'key': 'C09:options:invalid-value-accepted:abstol+reltol@%s' % e,
+                                 'msg': '%s with abstol = %r and reltol = %r (%s) should raise ValueError, got %s'
+                                        % (e, at, rt, how, _brief(r))})
     finally:
         solvers.options.clear()
     return {'n': n, 'nontrivial': nt, 'viol': viol[:12], 'outcomes': {'options-matrix': n}, 'states': nt, 'transitions': n, 'traces': n}
@@ -447,7 +458,40 @@ def run_tolerances(case):
     return {'n': n, 'nontrivial': nt, 'viol': O.viol[:10], 'outcomes': outcomes, 'states': n, 'transitions': n, 'traces': n}
 
 
+def run_startpoint(case):
+    """the start point object that F() hands out belongs to the caller: after the solve it holds the same bits, and a
+    second identical call gives the bit-identical result (problems on which cpl saves / restores its line-search state)."""
+    from mc import cvx
+    viol = []
+    n = nt = 0
+    pb = [p for p in nlsolve.base_problems(case['seed'] % 4) if p['tag'] == case['tag']][0]
+    if case.get('cone'):
+        pb = nlsolve.with_cone(pb, case['cone'], case['seed'] % 4, 0)
+    ref, _ = nlsolve.call(pb, {})
+    x0 = cvx.dmat(pb['x0'])
+    before = cvx.image(x0)
+    outs = []
+    for rep in range(2):
+        res, _ = nlsolve.call(pb, {'persistent_x0': x0})
+        n += 1; nt += 1
+        outs.append(_image(res))
+        if cvx.image(x0) != before:
+            viol.append({'key': 'C09:startpoint:modified@%s' % pb['entry'],
+                         'msg': '%s overwrote the start point object returned by F(): %r -> %r (call %d, problem %s)'
+                                % (pb['entry'], pb['x0'], list(x0), rep + 1, case['tag']), 'sub': {'tag': case['tag']}})
+            break
+    if not viol:
+        if outs[0] != outs[1]:
+            viol.append({'key': 'C09:startpoint:second-call-differs@%s' % pb['entry'], 'msg': 'the second identical call gives a different result'})
+        if outs[0] != _image(ref):
+            viol.append({'key': 'C09:startpoint:differs-from-fresh-start-object@%s' % pb['entry'],
+                         'msg': 'result with a caller-owned start point object differs from the result with a fresh one'})
+    return {'n': n, 'nontrivial': nt, 'viol': viol, 'outcomes': {'startpoint-calls': n}}
+
+
 def run(case):
+    if case['part'] == 'startpoint':
+        return run_startpoint(case)
     if case['part'] == 'tolerances':
         return run_tolerances(case)
     if case['part'] == 'options':
